@@ -51,7 +51,9 @@ pub(super) fn parse(bytes: &[u8]) -> ParseResult {
         Ok(_) => ParseResult::Error(take_result()),
         Err(e) => {
             let result = take_result();
-            if !e.is_data() {
+            // data errors are normally recorded by the visitors, but not when the document is not
+            // an object at all
+            if !e.is_data() || !result.has_errors() {
                 result.error(
                     ErrorCode::E033,
                     format!("Inventory could not be parsed: {}", e),
